@@ -10,7 +10,8 @@ shutil.copy(src + "/mutant.diff", dst + "/patch.diff")
 shutil.copy(src + "/tests/seeded_demo.rs", dst + "/seeded_demo.rs")
 meta_txt = open(src + "/meta.txt").read() if os.path.exists(src + "/meta.txt") else ""
 conf = ""
-for f in ("/tmp/wt/confirm.out", "/tmp/wt/confirm2.out", "/tmp/wt/confirm3.out", "/tmp/wt/confirm4.out"):
+import glob
+for f in sorted(glob.glob("/tmp/wt/confirm*.out")):
     if os.path.exists(f):
         conf += "".join(l for l in open(f) if l.startswith(wid + " "))
 json.dump({"property": prop, "origin": "independent sub-agent given only the property text and a scratch worktree",
